@@ -429,12 +429,18 @@ StepBlkSend1(ln) ==
              THEN RetChecks(ln, res, IF sizeErr THEN "C03.size" ELSE "MM") \o CntChecks(ln, e, res, FALSE)
              ELSE <<>>
       \* mi = 1 on a failed blocking send: the peer had already been handed this very message
-      all == hcs \o <<Chk(~(ln.ret = -1 /\ ln.mi = 1), "C03.delivered_failed", 0, ln.mi)>> \o (IF mm THEN <<>> ELSE mcs)
+      \* C01: an interrupted blocking send that reports failure (EINTR) has not accepted the message: by the library's own
+      \* account (from_app_msgs) nothing was taken from the application, so nothing of it will reach the peer
+      took == ~Stream(tp) /\ ln.rty = 0 /\ ln.ret = -1 /\ ln.err = EINTR /\ ln.c[e][1] # -1 /\ hist[e].pc[1] # -1
+              /\ ln.c[e][6] > hist[e].pc[6]
+      all == hcs \o <<Chk(~(ln.ret = -1 /\ ln.mi = 1), "C03.delivered_failed", 0, ln.mi),
+                      Chk(~took, "C01.failed_accepted", <<"from_app_msgs", hist[e].pc[6]>>, ln.c[e][6])>>
+             \o (IF mm THEN <<>> ELSE mcs)
   IN /\ Report(ln, all)
      /\ eps' = [eps EXCEPT ![e] = IF judged /\ ~mm THEN UpdB(CondFromEm(res.ep, ln.em[e])) ELSE @]
      /\ hist' = [hist EXCEPT ![e] = IF ln.ret = -2 THEN @ ELSE HistNext(ls, e)]
      \* a blocking send that failed with the connection, was interrupted or hung: the model part stops here
-     /\ mm' = (mm \/ ~judged \/ IsMM(all) \/ \E i \in 1..Len(all) : ~all[i].c /\ i > Len(hcs) + 1)
+     /\ mm' = (mm \/ ~judged \/ IsMM(all) \/ \E i \in 1..Len(all) : ~all[i].c /\ i > Len(hcs) + 2)
      /\ nv' = nv + Len(Failed(all))
      /\ UNCHANGED <<frames, nrcv>> /\ Keep
 
